@@ -135,6 +135,15 @@ def classify(prop, case, res, idx):
                 twice = twice or len(stack) != len(set(stack))
         if twice:
             return "input-beneath-modal:same-screen-twice-on-stack"
+        # (3) a prompt that outlived the stack entry of its screen: the entry that asked was popped before the line
+        # arrived, and the screen object has (or gets) another entry beneath an open modal screen
+        ready = [e for e in before if e[0] == 19 and e[1] == 12 and e[2][1] == 1]
+        if ready:
+            n = ready[-1][2][0]
+            for k, e in enumerate(before):
+                if e[0] == 19 and e[1] == 18 and e[2][2] == n and e[2][0] == ev[2][0]:
+                    if any(x[0] == 19 and x[1] == 15 and x[2][0] == 2 and x[2][2] == ev[2][0] for x in before[k:]):
+                        return "input-beneath-modal:prompt-outlived-its-entry"
     if prop == "C06" and kind == "INPUT":
         # finding F15: InputManager._input_args is one slot per screen: a LATER request of the same screen
         # (refused, or still outstanding) overwrote the args of the request this line answers
